@@ -186,16 +186,21 @@ pub struct Printer {
     /// name group i by the i-th letter (a, b, ...) instead of `gi`: names that collide with the
     /// literals of the pattern spaces
     pub letter_names: bool,
+    /// name group i `жi²` / `v１i` (non-ASCII letters, a superscript and a full-width digit)
+    pub unicode_names: bool,
     out: String,
     next_group: u32,
 }
 
 impl Printer {
     pub fn new(naming: Naming) -> Printer {
-        Printer { naming, verbose_quantifiers: false, letter_names: false, out: String::new(), next_group: 0 }
+        Printer { naming, verbose_quantifiers: false, letter_names: false, unicode_names: false, out: String::new(), next_group: 0 }
     }
 
     fn gname(&self, g: u32) -> String {
+        if self.unicode_names {
+            return if g % 2 == 1 { format!("ж{}²", g) } else { format!("v１{}", g) };
+        }
         if self.letter_names && (1..=26).contains(&g) {
             ((b'a' + (g - 1) as u8) as char).to_string()
         } else {
@@ -469,6 +474,13 @@ pub fn to_pattern(n: &Node) -> String {
 
 pub fn to_pattern_named(n: &Node, naming: Naming) -> String {
     Printer::new(naming).print(n)
+}
+
+/// named spelling with non-ASCII letters and non-ASCII numeric characters in the names
+pub fn to_pattern_unicode_names(n: &Node, naming: Naming) -> String {
+    let mut p = Printer::new(naming);
+    p.unicode_names = true;
+    p.print(n)
 }
 
 /// `(?<a>..)`, `(?<b>..)`, ... with `\k<a>` / `(?(<a>)..)` references
